@@ -31,6 +31,7 @@ META = {
     "note": "trusted: CPython, the harness in /verif/vf (LoggedCold/LoggedHot sources), the reference simulators in this file, "
     "VirtualTimeScheduler's queue discipline (checked by C28/C29)",
 }
+META["text"] += "; thread part: zip, fork_join, combine_latest, with_latest_from, amb with one thread per source, every interleaving up to the preemption bound, judged by the schedule-independent consequences of the pairing rules"
 RULE = (
     "all (operator, form, hot/cold pattern, tuple of source timelines): a source timeline = <=N on_next over a 2-value "
     "alphabet at slots 10,20,.. (optionally shifted by 5; hot ones also by -15 so that a prefix precedes subscription; cold ones "
